@@ -11,7 +11,7 @@ LEVEL = "exploration"
 QUICK_N, THOROUGH_N = 5, 6
 RULE = (
     "cases = (shape, start node, stop set, filtered-out set, maxlevel, how empty predicates are passed). The complete product "
-    "is enumerated on every shape with <= 5 nodes (quick) / <= 6 nodes (thorough): every start node x every subset of the start's "
+    "is enumerated on every shape with <= 5 nodes (quick) / <= 6 nodes (thorough; plus all 7-node shapes with the root as start): every start node x every subset of the start's "
     "subtree as stop set x every subset as filtered-out set x maxlevel in {None, -1, 0, ..., subtree height + 2}; Hypothesis adds "
     "trees up to 25 nodes with random subsets. Non-trivial = at least two of {stop, filter_, maxlevel} actually remove an "
     "otherwise admitted node. Enumerated cases are distinct by construction; generated ones are hashed."
@@ -120,13 +120,13 @@ def _subtree_labels(shape, start):
     return out
 
 
-def _enum_cases(max_nodes, index, count):
+def _enum_cases(max_nodes, index, count, min_nodes=1, root_only=False):
     k = 0
-    for shape in shapes.trees_upto(max_nodes):
+    for shape in shapes.trees_upto(max_nodes, start=min_nodes):
         size = shapes.shape_size(shape)
         lshape = forest.to_list(shape)
         parents = shapes.shape_to_parents(shape)
-        for start in range(size):
+        for start in ([0] if root_only else range(size)):
             k += 1
             if k % count != index:
                 continue
@@ -177,13 +177,17 @@ def plan(tier, seed):
     max_nodes = QUICK_N if tier == "quick" else THOROUGH_N
     examples = 300 if tier == "quick" else 2000
     tasks = [{"engine": "enum", "max_nodes": max_nodes, "index": i, "count": nshards * 4} for i in range(nshards * 4)]
+    if tier == "thorough":
+        # one size further for the root as start node (the iterators never look above the start node, so
+        # non-root starts of 7-node shapes are the root starts of smaller shapes already enumerated)
+        tasks += [{"engine": "enum", "max_nodes": 7, "min_nodes": 7, "root_only": True, "index": i, "count": 132} for i in range(132)]
     tasks += [{"engine": "hyp", "examples": examples, "seed": seed * 1000 + i} for i in range(nshards)]
     return tasks
 
 
 def run_task(task, acc):
     if task["engine"] == "enum":
-        acc.run_enum(check_case, _enum_cases(task["max_nodes"], task["index"], task["count"]))
+        acc.run_enum(check_case, _enum_cases(task["max_nodes"], task["index"], task["count"], task.get("min_nodes", 1), task.get("root_only", False)))
     else:
         acc.run_hypothesis(check_case, random_cases(), task["examples"], task["seed"])
 
